@@ -33,6 +33,7 @@ pub fn rust_ty(t: &Ty, decls: &mut Vec<String>) -> String {
         Ty::Map(k, t) => {
             let ks = match k {
                 KeyTy::Str => "String".to_string(),
+                KeyTy::SpannedStr => "toml::Spanned<String>".to_string(),
                 KeyTy::UnitVariant(n, vs) => {
                     decls.push(format!("enum {n} {{ {} }}", vs.iter().map(|v| format!("#[serde(rename = {v:?})] _{}", ident(v))).collect::<Vec<_>>().join(", ")));
                     n.clone()
